@@ -72,7 +72,7 @@ PROPS = {
         "assumptions": COMMON_ASSUME,
     },
     "C01": {
-        "rules": ["R-STATE", "R-INITCOVER", "R-MIRROR", "R-IDGUARD", "R-SELECTRANGE", "R-PROBE", "R-BUCKET", "R-FMMAP", "R-BYTEORDER", "R-PURE-BASIC", "R-SLOT", "R-CLAMP", "R-CMPSIGN", "R-BSEARCH", "R-SCANSIGN", "R-CHUNKINIT", "R-SCANLEN"],
+        "rules": ["R-STATE", "R-INITCOVER", "R-MIRROR", "R-IDGUARD", "R-SELECTRANGE", "R-PROBE", "R-BUCKET", "R-FMMAP", "R-BYTEORDER", "R-PURE-BASIC", "R-SLOT", "R-CLAMP", "R-CMPSIGN", "R-BSEARCH", "R-SCANSIGN", "R-CHUNKINIT", "R-SCANLEN", "R-RESAVE-SCALAR"],
         "explanation": "The clause `for the freshly built object and the reloaded one alike` is decided structurally: for every kind and both "
                        "creation paths, every field read by a query on an object of a class that path instantiates (rapid type analysis, virtual "
                        "calls resolved to final overriders of instantiated classes) is assigned by code reachable from that creation path, pointer "
@@ -89,7 +89,8 @@ PROPS = {
                     "three-way string comparators are oriented one way on all their paths (sign polarity of the pattern bytes in every returned value, R-CMPSIGN)",
                     "binary searches move the bound the comparator's orientation dictates, and in-bucket scans give up only once the stored string is larger (R-BSEARCH, R-SCANSIGN)",
                     "every chunk scan handed to the Huffman/Hu-Tucker chunk decoder starts from the same state as its siblings (R-CHUNKINIT)",
-                    "the scans that derive the FM-index / XBW alphabet and maximum symbol cover exactly the sequence handed to the wavelet-tree builder (R-SCANLEN)"],
+                    "the scans that derive the FM-index / XBW alphabet and maximum symbol cover exactly the sequence handed to the wavelet-tree builder (R-SCANLEN)",
+                    "scalar header values (element / bucket counts, sizes, widths) read from the image are kept unchanged in the field they were saved from (R-RESAVE-SCALAR)"],
         "not_decided": ["that decoding inverts encoding for every string (Hu-Tucker, Huffman, Re-Pair, DAC, rank/select values)", "binary-search correctness",
                         "HHTFC / RPHTFC mis-decode small inputs even when reloaded (seen by triage probes replays/t_roundtrip.cpp; value-level, outside every rule)"],
         "assumptions": COMMON_ASSUME,
@@ -123,12 +124,13 @@ PROPS = {
         "assumptions": COMMON_ASSUME,
     },
     "C15": {
-        "rules": ["R-METADATA", "R-MIRROR", "R-NARROW"],
+        "rules": ["R-METADATA", "R-MIRROR", "R-NARROW", "R-RESAVE-SCALAR"],
         "explanation": "Counter discipline in every building constructor (CFG must-pass-through between consecutive reads of the input) and image/loader "
                        "agreement for the two header fields.",
         "decided": ["each consumed string is counted exactly once; maxlength raised under a comparison with the length just read; derived kinds copy both (R-METADATA)",
                     "both fields are written and read back with equal width and position (R-MIRROR)",
-                    "no save writes a data member through a narrower scalar type than the member has (R-NARROW)"],
+                    "no save writes a data member through a narrower scalar type than the member has (R-NARROW)",
+                    "scalar header values (element / bucket counts, sizes, widths) read from the image are kept unchanged in the field they were saved from (R-RESAVE-SCALAR)"],
         "not_decided": ["that the length reported by the input iterator is the string's length (trusted)"],
         "assumptions": COMMON_ASSUME,
     },
@@ -144,7 +146,7 @@ PROPS = {
         "assumptions": COMMON_ASSUME,
     },
     "C03": {
-        "rules": ["R-BUCKET", "R-FMMAP", "R-NOSORT", "R-BYTEORDER", "R-PURE-RANK", "R-CLAMP", "R-CMPSIGN", "R-BSEARCH", "R-SCANSIGN", "R-CMPEND", "R-SCANLEN"],
+        "rules": ["R-BUCKET", "R-FMMAP", "R-NOSORT", "R-BYTEORDER", "R-PURE-RANK", "R-CLAMP", "R-CMPSIGN", "R-BSEARCH", "R-SCANSIGN", "R-CMPEND", "R-SCANLEN", "R-RESAVE-SCALAR"],
         "explanation": "Order preservation decided structurally: rank operations are the identity / delegate to extract in the seven order-preserving "
                        "kinds, ID arithmetic is consistent with consuming the input in order, FM-index row mapping agrees, and no builder of an "
                        "order-preserving kind reorders its input (no sort reachable on their build paths). "
@@ -156,7 +158,8 @@ PROPS = {
                     "three-way string comparators are oriented one way on all their paths (sign polarity of the pattern bytes in every returned value, R-CMPSIGN)",
                     "binary searches move the bound the comparator's orientation dictates, and in-bucket scans give up only once the stored string is larger (R-BSEARCH, R-SCANSIGN)",
                     "comparators that take the pattern length report a match only where the end of the pattern has been observed (R-CMPEND)",
-                    "the scans that derive the FM-index / XBW alphabet and maximum symbol cover exactly the sequence handed to the wavelet-tree builder (R-SCANLEN)"],
+                    "the scans that derive the FM-index / XBW alphabet and maximum symbol cover exactly the sequence handed to the wavelet-tree builder (R-SCANLEN)",
+                    "scalar header values (element / bucket counts, sizes, widths) read from the image are kept unchanged in the field they were saved from (R-RESAVE-SCALAR)"],
         "not_decided": ["the alphabetic property of Hu-Tucker codes (memcmp on encoded headers = string order) and suffix-array order (value-level)"],
         "assumptions": COMMON_ASSUME,
     },
@@ -208,7 +211,7 @@ PROPS = {
         "assumptions": COMMON_ASSUME,
     },
     "C06": {
-        "rules": ["R-MIRROR", "R-EXTENT", "R-TAGS", "R-DISPATCH", "R-PADDING", "R-STATE", "R-SELECTRANGE", "R-NARROW", "R-PROBE"],
+        "rules": ["R-MIRROR", "R-EXTENT", "R-TAGS", "R-DISPATCH", "R-PADDING", "R-STATE", "R-SELECTRANGE", "R-NARROW", "R-PROBE", "R-RESAVE-SCALAR"],
         "explanation": "Writer/reader agreement decided statically for every save/load pair in the cone of classes the 13 kinds persist "
                        "(rapid type analysis from their constructors) plus libcds classes named in C19: both halves are abstracted to "
                        "ordered trees of stream elements whose sizes are symbolic expressions over earlier image values, and compared "
@@ -222,7 +225,8 @@ PROPS = {
                     "every field an operation reads on a loaded object is assigned on the load path (R-STATE)",
                     "the compact hash loaders enumerate occupied cells over 1..n like their sibling (R-SELECTRANGE)",
                     "no save writes a data member through a narrower scalar type than the member has (R-NARROW)",
-                    "the lookups of the loaded hash representations (Hashdh / HashBdh / HashBBdh) walk the probe sequence the builder's insert used (R-PROBE)"],
+                    "the lookups of the loaded hash representations (Hashdh / HashBdh / HashBBdh) walk the probe sequence the builder's insert used (R-PROBE)",
+                    "scalar header values (element / bucket counts, sizes, widths) read from the image are kept unchanged in the field they were saved from (R-RESAVE-SCALAR)"],
         "not_decided": ["state recomputed at load (RRR sampling, HashBdh/HashBBdh compaction, DecodingTree::buildTree) equals the built state (value-level)",
                         "counts that depend on container sizes not present in the image are compared structurally only (listed as undecided in the evidence)",
                         "the generic loader's absolute seekg(0) assumes the image starts the stream (outside the self-delimiting clause, which is stated for a kind's own loader)"],
